@@ -142,6 +142,10 @@ func timerFactsGen(rng *proto.RNG, tier string, shard, nshards int, w *bufio.Wri
 	// the two repaired functions: the nil-checked Stop of schedulerTask.close and the non-waiting,
 	// idempotent Scheduler.Close (its hang is a rare race the real-time suites cannot hit on demand)
 	fmt.Fprintln(w, "facts-task close")
+	// Next: the wait for the expiration of the run that is starting (what makes "not early" true for an
+	// unconstrained wheel), the kill / count test and the trigger bump; caller: kill check before the call
+	fmt.Fprintln(w, "facts-task Next")
+	fmt.Fprintln(w, "facts-task caller")
 }
 
 func init() {
